@@ -143,10 +143,14 @@ Proof.
   - unfold e_prop, d_prop.
     assert (Ha : forall a, XS.access_word (d_access a) = access_word a) by (intros []; reflexivity).
     rewrite <- Ha.
-    destruct (eff_emits p);
-      [exact (XS.RProp_i bytes idf (X.mkProp bytes (pd_name p) (sigstr (pd_ty p)) (d_access (pd_acc p)) []) [] (Forall2_nil _))
-      |apply (XS.RProp_i bytes idf (X.mkProp bytes (pd_name p) (sigstr (pd_ty p)) (d_access (pd_acc p)) [_]));
-       repeat constructor ..].
+    destruct (eff_emits p).
+    + apply (XS.RProp_i bytes idf (X.mkProp bytes (pd_name p) (sigstr (pd_ty p)) (d_access (pd_acc p)) []) []). constructor.
+    + apply (XS.RProp_i bytes idf (X.mkProp bytes (pd_name p) (sigstr (pd_ty p)) (d_access (pd_acc p)) [X.mkAnn annot_name (emits_word EInval)])).
+      constructor; [|constructor]. exact (XS.RAnn_i (X.mkAnn annot_name _)).
+    + apply (XS.RProp_i bytes idf (X.mkProp bytes (pd_name p) (sigstr (pd_ty p)) (d_access (pd_acc p)) [X.mkAnn annot_name (emits_word EConst)])).
+      constructor; [|constructor]. exact (XS.RAnn_i (X.mkAnn annot_name _)).
+    + apply (XS.RProp_i bytes idf (X.mkProp bytes (pd_name p) (sigstr (pd_ty p)) (d_access (pd_acc p)) [X.mkAnn annot_name (emits_word EFalse)])).
+      constructor; [|constructor]. exact (XS.RAnn_i (X.mkAnn annot_name _)).
 Qed.
 
 (* ---------------------------------------------------------------- an interface reads back *)
@@ -169,32 +173,35 @@ Proof.
   assert (Lp : Forall (XP.is_el (B "property")) Ep) by (apply is_el_map; reflexivity).
   assert (H1 : X.children (B "method") of_method' (Em ++ Es ++ Ep) = Ok (map d_method (id_methods d))).
   { apply (XP.children_group (B "method") of_method' [] Em (Es ++ Ep) _ eq_refl eq_refl).
-    - rewrite filter_app, (XP.filter_none _ _ _ Ls eq_refl), (XP.filter_none _ _ _ Lp eq_refl). reflexivity.
+    - rewrite filter_app, (XP.filter_none (B "method") _ _ Ls eq_refl), (XP.filter_none (B "method") _ _ Lp eq_refl). reflexivity.
     - exact Lm.
     - apply (forall2_map_ok e_method d_method of_method' _ _ Hm). intros m. apply rd_method. }
   assert (H2 : X.children (B "property") of_prop' (Em ++ Es ++ Ep) = Ok (map d_prop (sorted_props d))).
   { replace (Em ++ Es ++ Ep) with ((Em ++ Es) ++ Ep ++ []) by (now rewrite app_nil_r, <- app_assoc).
     apply (XP.children_group (B "property") of_prop' (Em ++ Es) Ep [] _ eq_refl).
-    - rewrite filter_app, (XP.filter_none _ _ _ Lm eq_refl), (XP.filter_none _ _ _ Ls eq_refl). reflexivity.
+    - rewrite filter_app, (XP.filter_none (B "property") _ _ Lm eq_refl), (XP.filter_none (B "property") _ _ Ls eq_refl). reflexivity.
     - reflexivity.
     - exact Lp.
     - apply (forall2_map_ok e_prop d_prop of_prop' _ _ Hp). intros p. apply rd_prop. }
   assert (H3 : X.children (B "signal") of_signal' (Em ++ Es ++ Ep) = Ok (map d_signal (id_signals d))).
   { apply (XP.children_group (B "signal") of_signal' Em Es Ep _ eq_refl).
-    - apply (XP.filter_none _ _ _ Lm eq_refl).
-    - apply (XP.filter_none _ _ _ Lp eq_refl).
+    - apply (XP.filter_none (B "signal") _ _ Lm eq_refl).
+    - apply (XP.filter_none (B "signal") _ _ Lp eq_refl).
     - exact Ls.
     - apply (forall2_map_ok e_signal d_signal of_signal' _ _ Hs). intros s. apply rd_signal. }
   assert (H4 : X.children (B "annotation") (X.of_ann okf) (Em ++ Es ++ Ep) = Ok []).
   { replace (Em ++ Es ++ Ep) with ((Em ++ Es ++ Ep) ++ [] ++ []) by (now rewrite !app_nil_r).
     apply (XP.children_group (B "annotation") (X.of_ann okf) (Em ++ Es ++ Ep) [] [] [] eq_refl).
-    - rewrite !filter_app, (XP.filter_none _ _ _ Lm eq_refl), (XP.filter_none _ _ _ Ls eq_refl), (XP.filter_none _ _ _ Lp eq_refl).
+    - rewrite !filter_app, (XP.filter_none (B "annotation") _ _ Lm eq_refl), (XP.filter_none (B "annotation") _ _ Ls eq_refl), (XP.filter_none (B "annotation") _ _ Lp eq_refl).
       reflexivity.
     - reflexivity.
     - constructor.
     - constructor. }
-  unfold e_iface. fold Em Es Ep. cbn [X.of_iface]. unfold X.check_attrs, X.req_attr, X.get_attr. cbn.
-  unfold X.parse_name. rewrite Hi. cbn. rewrite H1. cbn. rewrite H2. cbn. rewrite H3. cbn. rewrite H4. reflexivity.
+  unfold e_iface. fold Em Es Ep. cbn [X.of_iface].
+  assert (Hc : X.check_attrs [(B "name", id_name d)] = Ok tt) by reflexivity.
+  assert (Hr : X.req_attr okf (B "name") [(B "name", id_name d)] = Ok (id_name d)) by reflexivity.
+  rewrite Hc. cbn [bind]. rewrite Hr. cbn [bind]. unfold X.parse_name. rewrite Hi. cbn [bind].
+  rewrite H1. cbn [bind]. rewrite H2. cbn [bind]. rewrite H3. cbn [bind]. rewrite H4. reflexivity.
 Qed.
 
 Lemma std_names_ok : Forall names_ok_desc std_ifaces.
@@ -238,13 +245,13 @@ Proof.
   assert (H1 : X.children (B "interface") of_iface' (Ei ++ e_kids kids) = Ok (map d_iface (std_ifaces ++ map in_desc ifs))).
   { replace (Ei ++ e_kids kids) with ([] ++ Ei ++ e_kids kids) by reflexivity.
     apply (XP.children_group (B "interface") of_iface' [] Ei (e_kids kids) _ eq_refl eq_refl).
-    - apply (XP.filter_none _ _ _ (e_kids_el kids) eq_refl).
+    - apply (XP.filter_none (B "interface") _ _ (e_kids_el kids) eq_refl).
     - exact Li.
     - apply (forall2_map_ok e_iface d_iface of_iface' _ _ Hall). intros d. apply rd_iface. }
   assert (H2 : X.children (B "node") of_node' (Ei ++ e_kids kids) = Ok (d_kids kids)).
   { replace (Ei ++ e_kids kids) with (Ei ++ e_kids kids ++ []) by (now rewrite app_nil_r).
     apply (XP.children_group (B "node") of_node' Ei (e_kids kids) [] _ eq_refl).
-    - apply (XP.filter_none _ _ _ Li eq_refl).
+    - apply (XP.filter_none (B "node") _ _ Li eq_refl).
     - reflexivity.
     - apply e_kids_el.
     - clear H1. induction kids as [|[k c] r IHk]; cbn; constructor.
